@@ -62,7 +62,7 @@ func searchFunc(ctx *flags.Context) error {
 			queries = append(queries, scanner.Value())
 		}
 		if len(queries) == 0 {
-			ctx.Raise(fmt.Errorf("query sequence file %q does not contain a sequence", *queryPath))
+			return ctx.Raise(fmt.Errorf("query sequence file %q does not contain a sequence", *queryPath))
 		}
 	}
 	querySum := h.Sum(nil)
